@@ -17,6 +17,8 @@ import (
 	"strconv"
 	"strings"
 	"time"
+
+	"golang.org/x/tools/go/ssa"
 )
 
 func main() {
@@ -109,6 +111,18 @@ func cmdCheck(args []string) (code int) {
 		}
 		res.Packages = len(p.Pkgs)
 		res.Configs = append(res.Configs, p.cfgName())
+		// first pass: run the rules without helper inlining to learn which functions they anchor on
+		curProg, inlining = p, false
+		paramBind = map[*ssa.Parameter]ssa.Value{}
+		pureCache = map[*ssa.Function]int{}
+		dry := &Ctx{P: p, counted: map[string]int{}, funcs: map[string]bool{}}
+		for _, rid := range pd.Rules {
+			if ri := rules[rid]; ri != nil && (*only == "" || *only == rid) {
+				dry.rule = ri
+				ri.Run(dry)
+			}
+		}
+		inlining = true
 		ctx := &Ctx{P: p, counted: map[string]int{}, funcs: funcs}
 		for _, rid := range pd.Rules {
 			ri := rules[rid]
